@@ -24,9 +24,64 @@ def model():
 _loaded = {}
 
 
+class _Proxy:
+    """`np` / `math` as seen by a module under verification: the real module, except that the few names that
+    must stay symbolic (pi, ...) or accept symbolic arguments are overridden."""
+
+    def __init__(self, real, overrides):
+        object.__setattr__(self, '_real', real)
+        object.__setattr__(self, '_over', overrides)
+
+    def __getattr__(self, name):
+        over = object.__getattribute__(self, '_over')
+        if name in over:
+            return over[name]
+        return getattr(object.__getattribute__(self, '_real'), name)
+
+
+LN2 = z3.Real('ln2')
+core.define('ln2', [LN2 > z3.RealVal('0.693147180559945'), LN2 < z3.RealVal('0.693147180559946')])
+
+
+def _sym_sqrt(real_sqrt):
+    def f(x):
+        from .pysym import SymReal, SymInt
+        if isinstance(x, (SymReal, SymInt)):
+            t = z3.ToReal(x.t) if isinstance(x, SymInt) else x.t
+            return SymReal(core.sqrt_term(t))
+        if isinstance(x, (int, float)) and x >= 0:
+            from fractions import Fraction as Fr
+            return SymReal(core.sqrt_term(core.tz(Fr(x)), nonneg=True))
+        return real_sqrt(x)
+    return f
+
+
+def _sym_log(real_log):
+    def f(x, *a):
+        from .pysym import SymReal
+        if not a and isinstance(x, int) and x == 2:
+            return SymReal(LN2)
+        return real_log(x, *a)
+    return f
+
+
+def proxies():
+    import math as _math
+    import numpy as _np
+    from .pysym import SymReal
+    pi = SymReal(PI)
+    return {'np': _Proxy(_np, {'pi': pi}), 'numpy': _Proxy(_np, {'pi': pi}),
+            'math': _Proxy(_math, {'pi': pi, 'sqrt': _sym_sqrt(_math.sqrt), 'log': _sym_log(_math.log)})}
+
+
 def load(mod, **kw):
     if mod not in _loaded:
-        _loaded[mod] = loader.load(mod, model(), **kw)
+        m = loader.load(mod, model(), **kw)
+        px = proxies()
+        for nm, prox in px.items():
+            if nm in getattr(m, '__dict__', {}):
+                setattr(m, nm, prox)
+        _loaded[mod] = m
     return _loaded[mod]
 
 
